@@ -18,11 +18,6 @@ package cbor
 //@   requires validIO(i) && node != nil
 //@   ensures [decoded-entry-is-safe-to-use] err == nil ==> validEntry(result0) && fresh(result0)
 
-//@ func castBytesToCid
-//@   ensures true
-
-//@ func castCidToBytes
-//@   ensures true
 
 //@ func NonceRefForEntry
 //@   requires validEntry(entry)
